@@ -60,6 +60,10 @@ impl MakeOperators<f64> for FacB {
 const FAC_A: &[(&str, f64)] = &[("2**3*2+(1<=2)", 17.0), ("3<=2**2", 1.0), ("-2**2*3", 12.0), ("1<2+2<=1", 1.0)];
 const FAC_B: &[(&str, f64)] = &[("2*3+4/2-(1<2)", 7.0), ("7%4*2", 6.0), ("-2*3<1", 1.0), ("8/2/2", 2.0)];
 
+thread_local! {
+    static BIG: FlatEx<f64> = FlatEx::<f64>::parse(&big_text()).unwrap();
+}
+
 fn custom(which: bool, k: usize) -> String {
     // k also selects the form: both parsers build their own operator table
     let deep = (k / 4) % 2 == 1;
@@ -78,6 +82,30 @@ fn custom(which: bool, k: usize) -> String {
             other => format!("FacB {} gave {:?}, documented {}", t, other.ok(), want),
         }
     }
+}
+
+/// a flat expression with more than 2048 operands (tracker of more than 32 words): `x*y+x*y+...`
+fn big_text() -> String {
+    let mut s = String::new();
+    for k in 0..1100 {
+        if k > 0 {
+            s.push(if k % 3 == 0 { '-' } else { '+' });
+        }
+        s.push_str("x*y");
+    }
+    s
+}
+fn big_value(x: f64, y: f64) -> f64 {
+    // evaluated left to right like the documented semantics
+    let mut acc = x * y;
+    for k in 1..1100 {
+        if k % 3 == 0 {
+            acc -= x * y;
+        } else {
+            acc += x * y;
+        }
+    }
+    acc
 }
 
 fn work(round_seed: u64, shared_f: &[Arc<FlatEx<f64>>], shared_d: &[Arc<DeepEx<'static, f64>>]) -> Vec<String> {
@@ -106,6 +134,15 @@ fn work(round_seed: u64, shared_f: &[Arc<FlatEx<f64>>], shared_d: &[Arc<DeepEx<'
                 out.push(format!("{:?}", e.eval(&v)));
             }
             Err(_) => out.push("E".into()),
+        }
+        // repeated evaluation of one large expression on the same thread (evaluation history)
+        if out.len() % 50 < 6 {
+            BIG.with(|b| {
+                let (x, y) = (1.0 + r.below(5) as f64, 0.5 + r.below(3) as f64);
+                let got = b.eval(&[x, y]).map(|v| v.to_bits()).ok();
+                let want = Some(big_value(x, y).to_bits());
+                out.push(if got == want { "big ok".to_string() } else { format!("Fac-big eval gave {:?}, documented {:?}", got, want) });
+            });
         }
         // two parses with equally sized custom factories, in random order
         let (w1, w2, k1, k2) = (r.chance(1, 2), r.chance(1, 2), r.below(8), r.below(8));
